@@ -3,7 +3,17 @@
 #include <chrono>
 #include <cstring>
 #include <string>
+#include <ctime>
+#include <climits>
 extern "C" {
+// libc strftime on a broken-down time given field by field (the oracle for text that format() delegates to strftime)
+int fr_strftime(const char* fmt, long long year, int mon, int mday, int hh, int mm, int ss, int wday, int yday, char* out, int cap) {
+  std::tm tm{};
+  tm.tm_sec = ss; tm.tm_min = mm; tm.tm_hour = hh; tm.tm_mday = mday; tm.tm_mon = mon - 1;
+  tm.tm_year = year - 1900 > INT_MAX ? INT_MAX : (year - 1900 < INT_MIN ? INT_MIN : static_cast<int>(year - 1900));
+  tm.tm_wday = wday; tm.tm_yday = yday; tm.tm_isdst = 0;
+  return static_cast<int>(strftime(out, cap, fmt, &tm));
+}
 // format `fmt` for instant (sec, fs) in the zone fixed_time_zone(offset); returns length, writes up to cap bytes
 int fr_format(const char* fmt, long long sec, long long fs, long offset, char* out, int cap) {
   cctz::time_zone tz = cctz::fixed_time_zone(cctz::seconds(offset));
